@@ -1264,5 +1264,27 @@ mod reduced_range_rng;
 #[doc(hidden)]
 pub use reduced_range_rng::ReducedRangeRng;
 
+/// Verification hooks (used by the checkers in /verif). Not part of the API.
+#[cfg(rten_verif)]
+pub mod verif {
+    use super::{GemmExecutor, WithKernel};
+
+    /// One executor per f32 kernel usable on this machine.
+    pub fn f32_executors() -> Vec<GemmExecutor<f32, f32, f32>> {
+        GemmExecutor::<f32, f32, f32>::kernel_types()
+            .into_iter()
+            .filter_map(GemmExecutor::<f32, f32, f32>::with_kernel)
+            .collect()
+    }
+
+    /// One executor per int8 kernel usable on this machine.
+    pub fn int8_executors() -> Vec<GemmExecutor<u8, i8, i32>> {
+        GemmExecutor::<u8, i8, i32>::kernel_types()
+            .into_iter()
+            .filter_map(GemmExecutor::<u8, i8, i32>::with_kernel)
+            .collect()
+    }
+}
+
 #[cfg(test)]
 mod tests;
